@@ -54,6 +54,7 @@ type live struct {
 	mu        sync.Mutex
 	evs       []*liveEventer                                        // accept order
 	conns     map[any]int                                           // connection pointer (hooks) -> index
+	chans     map[any]int                                           // registry channel (manager hooks) -> index
 	newConn   chan int                                              // signalled when a connection's writer started (first hook)
 	gate      atomic.Pointer[func(c int, point string, args []any)] // optional scheduler gate (steering)
 	cmds      sync.Map                                              // *service.ActiveMessage -> caller id
@@ -129,6 +130,7 @@ func (l *live) hook(conn any, point string, args []any) {
 		if !ok {
 			idx = len(l.conns)
 			l.conns[conn] = idx
+			l.chans[service.VerifConnChan(conn)] = idx
 			select {
 			case l.newConn <- idx:
 			default:
@@ -179,14 +181,28 @@ func (l *live) hook(conn any, point string, args []any) {
 		l.rec.log(c, "W", "w_stop")
 	case "W.exit":
 		l.rec.log(c, "W", "w_exit")
-	case "S.begin", "S.left", "S.stopClosed", "S.connClosed", "S.chansClosed":
+	case "S.begin":
+		l.rec.log(c, "R", point, "key", service.VerifConnKey(conn))
+	case "S.left", "S.stopClosed", "S.connClosed", "S.chansClosed":
 		l.rec.log(c, "R", point)
-	case "M.join.ok", "M.join.refused", "M.leave", "M.route.before", "M.route.after", "M.route.notexist":
-		kv := []any{"key", args[0]}
-		if len(args) > 1 {
-			kv = append(kv, "size", args[1])
+	case "M.join.ok", "M.join.refused":
+		l.mu.Lock()
+		ci, ok := l.chans[args[1]]
+		l.mu.Unlock()
+		if !ok {
+			ci = -2
 		}
-		l.rec.log(-1, "M", point, kv...)
+		l.rec.log(-1, "M", point, "key", args[0], "conn", ci)
+	case "M.leave", "M.route.after":
+		l.rec.log(-1, "M", point, "key", args[0])
+	case "M.route.before", "M.route.notexist":
+		k := -1
+		if am, ok := args[1].(*service.ActiveMessage); ok {
+			if v, ok := l.cmds.Load(am); ok {
+				k = v.(int)
+			}
+		}
+		l.rec.log(-1, "M", point, "key", args[0], "k", k)
 	case "T.fire", "T.checked", "T.sent":
 		l.rec.log(c, "T", point, "seq", int(args[0].(uint16)))
 	}
@@ -214,7 +230,7 @@ type liveOpts struct {
 }
 
 func startLive(o liveOpts) *live {
-	l := &live{rec: &recorder{}, conns: map[any]int{}, newConn: make(chan int, 1024)}
+	l := &live{rec: &recorder{}, conns: map[any]int{}, chans: map[any]int{}, newConn: make(chan int, 1024)}
 	if o.traceTo != "" {
 		f, err := os.Create(o.traceTo)
 		if err != nil {
